@@ -52,6 +52,7 @@ def ins_corpus(tier, seed):
         ins_spec("gauss4", s + 3, 100, strict_threshold=True, kills=[400]),
         ins_spec("gauss2", s + 4, 80, n_initial=150, draw_constant=False, kills=[300, 300]),
         ins_spec("gauss2", s + 5, 100, max_iteration=2, reparameterisation=None),
+        ins_spec("trunc2", s + 6, 100, max_iteration=4),          # samples with log-likelihood -inf are returned
     ]
     if tier == "thorough":
         k = 6
